@@ -12,7 +12,9 @@
 From Hio Require Import Base.Prelude.
 
 (* outcome of one do_handshake() call / of one recv() call *)
-Inductive hs := HWant | HOk | HEof | HSsl | HOs | HExc.
+(* WANT_READ, WANT_WRITE, success, SSL EOF, other SSLError, OSError ECONNABORTED, OSError with another
+   errno (ECONNRESET, ETIMEDOUT, EPIPE), unexpected non-OSError exception *)
+Inductive hs := HWant | HWantw | HOk | HEof | HSsl | HOs | HReset | HTimedout | HPipe | HExc.
 Inductive rout := RData | REof | RReset | RErr.
 
 (* a Remoter / RemoterTls: its socket (None once closed), .cutoff, and the
@@ -144,7 +146,8 @@ Definition cxes_body s (ca : N) (c : conn) : server * option exn :=
   | Some i =>
     match c_hs c with
     | [] => (s, None)
-    | HWant :: h => (set_cxes s (oupd (cxes s) ca {| c_id := Some i; c_cut := c_cut c; c_hs := h |}), None)
+    | HWant :: h | HWantw :: h =>
+      (set_cxes s (oupd (cxes s) ca {| c_id := Some i; c_cut := c_cut c; c_hs := h |}), None)
     | HOk :: h =>
       let s1 := set_cxes s (odel (cxes s) ca) in
       let s2 := close_ix_if s1 ca in
@@ -152,7 +155,7 @@ Definition cxes_body s (ca : N) (c : conn) : server * option exn :=
     | HExc :: h =>
       (add_closed (set_cxes s (oupd (cxes s) ca {| c_id := None; c_cut := c_cut c; c_hs := h |})) [i],
        Some RuntimeErr)
-    | _ :: h => (* EOF / other SSLError / OSError: close, aborted, forget *)
+    | _ :: h => (* EOF / other SSLError / OSError of any errno: close, aborted, forget *)
       (add_closed (set_cxes s (odel (cxes s) ca)) [i], None)
     end
   end.
@@ -293,7 +296,7 @@ Definition chandshake c (h : hs) : client * option exn :=
   | None => (c, Some AttrErr)
   | Some _ =>
     match h with
-    | HWant => (c, None)
+    | HWant | HWantw => (c, None)
     | HOk => (set_con c, None)
     | HExc => (cclose c, Some RuntimeErr)
     | _ => (cclose c, Some OSErr)
